@@ -654,6 +654,14 @@ def run_check(prop, tier, seed, replay):
                 for sc in scenarios.generate():
                     f.write(json.dumps(sc) + "\n")
             script_files.append(("scenarios", pth, 4))
+        # 3d. systematic forgotten-unadopt templates (tools/elide_scen.py), several heap layouts each
+        if "elide" in P["fams"]:
+            import elide_scen
+            pth = os.path.join(wd, "elidescen.ndjson")
+            with open(pth, "w") as f:
+                for sc in elide_scen.generate():
+                    f.write(json.dumps(sc) + "\n")
+            script_files.append(("elidescen", pth, 5, 6 if tier == "quick" else 12))
         # 4. committed witnesses of repaired / known defects
         fdir = os.path.join(VERIF, "findings")
         if os.path.isdir(fdir):
@@ -670,14 +678,17 @@ def run_check(prop, tier, seed, replay):
     traces = []
     nscripts = 0
     samples = []
-    for label, pth, nobj in script_files:
+    for label, pth, nobj, *lay in script_files:
+        # heap layouts: per property, or per script file (4th element); a violating history
+        # that is replayed is tried under several layouts (table iteration order is address dependent)
+        nlay = lay[0] if lay else (P["layouts"][tier] if P.get("layouts") else (8 if replay else 0))
         lines = [l for l in open(pth).read().splitlines() if l.strip()]
         if not lines:
             continue
         nscripts += len(lines)
         samples.append(dict(source=label, script=fmt_script(json.loads(lines[min(3, len(lines) - 1)]))))
         calls = sum(l.count('"op"') // 2 for l in lines[:20]) / max(1, min(20, len(lines)))   # calls per script (each op has a nested d.op)
-        k = max(1, min(T["chunks"], len(lines) // 60 + 1), int(len(lines) * calls) // 8000)
+        k = max(1, min(T["chunks"], len(lines) // 60 + 1), int(len(lines) * calls * max(1, nlay)) // 8000)
         for ci in range(k):
             part = lines[ci::k]
             sp = os.path.join(wd, "%s_%d.ndjson" % (label, ci))
@@ -685,7 +696,7 @@ def run_check(prop, tier, seed, replay):
                 f.write("\n".join(part) + "\n")
             tp = os.path.join(wd, "%s_%d.trace" % (label, ci))
             while True:
-                rc, out, dt = harness(binp, ["replay", sp, tp] + ([str(P["layouts"][tier])] if P.get("layouts") else []))
+                rc, out, dt = harness(binp, ["replay", sp, tp] + ([str(nlay)] if nlay else []))
                 if rc == 0:
                     break
                 if rc > 0 and rc != 101:
